@@ -39,6 +39,15 @@ class Unabstractable(Exception):
     pass
 
 
+class HistoryStepFailed(Exception):
+    """a conversion that is part of an operator's construction history (the `then` steps of a generic-form node) raised:
+    that conversion is itself a query of the property - the case is re-run as that query on the node"""
+
+    def __init__(self, node, step, ex):
+        Exception.__init__(self, "%s: %s" % (type(ex).__name__, ex))
+        self.node, self.step = node, step
+
+
 # ------------------------------------------------------------------------------------------ regenerate
 
 def regenerate():
@@ -273,13 +282,51 @@ def build(e, dtype):
     if e["cls"] == "X":
         import linear_operator.operators as O
         k = ob.user_minimal_class() if e["py"] == "UserMinimal" else getattr(O, e["py"])
-        o = k(*[xval(a, dtype) for a in e.get("args", [])], **{n: xval(v, dtype) for n, v in e.get("kwargs", {}).items()})
+        args = [xval(a, dtype) for a in e.get("args", [])]
+        kwargs = {n: xval(v, dtype) for n, v in e.get("kwargs", {}).items()}
+        want_dt = None
+        if "dtype" in kwargs and e["py"] in ("PermutationLinearOperator", "TransposePermutationLinearOperator") \
+                and not _accepts_kw(k, "dtype"):
+            # a source tree whose permutation constructors have no dtype keyword (the nominal dtype is an attribute there):
+            # build without it and set the nominal dtype the way that tree allows - to(dtype), else type(dtype) - so that the
+            # run goes on and the property's predicates are evaluated on the operator an informed caller would hold
+            want_dt = kwargs.pop("dtype")
+        o = k(*args, **kwargs)
+        if want_dt is not None and o.dtype != want_dt:
+            for conv in ("to", "type"):
+                try:
+                    o2 = getattr(o, conv)(want_dt)
+                except Exception:
+                    continue
+                if o2.dtype == want_dt:
+                    o = o2
+                    break
         for step in e.get("then", []):              # construction history: conversions applied before the case starts
-            o = sq.apply_then(o, [dtype if x == "src" else x for x in step])
+            st = [dtype if x == "src" else x for x in step]
+            try:
+                o = sq.apply_then(o, st)
+            except Exception as ex:
+                raise HistoryStepFailed(dict(e, then=[]), st, ex)
         return o
     if any(isinstance(v, dict) and v.get("cls") == "X" for v in all_subs(e)[1:]):
         return _build_mixed(e, dtype)
     return ob.build(e, dtype)
+
+
+_ACCEPTS = {}
+
+
+def _accepts_kw(k, name):
+    """does the constructor of the live class take this keyword? (inspect.signature, cached per class)"""
+    import inspect
+    key = (k, name)
+    if key not in _ACCEPTS:
+        try:
+            ps = inspect.signature(k.__init__).parameters
+            _ACCEPTS[key] = name in ps or any(p.kind == p.VAR_KEYWORD for p in ps.values())
+        except (TypeError, ValueError):
+            _ACCEPTS[key] = True
+    return _ACCEPTS[key]
 
 
 def _build_mixed(e, dtype):
@@ -746,6 +793,11 @@ def run_case(meta, e, src, defdt, rg, q, heavy=True, defdt0=None, mixed=False):
         warnings.simplefilter("ignore")
         try:
             o = build(e, NDT[src])
+        except HistoryStepFailed as hs:
+            torch.set_default_dtype(NDT[defdt])
+            dn = DTN.get(hs.step[1]) if len(hs.step) > 1 else None
+            q2 = ("to", "pos", dn) if hs.step[0] == "to" and dn else ("type", dn) if hs.step[0] == "type" and dn else (hs.step[0],)
+            return run_case(meta, hs.node, src, defdt, rg, q2, heavy=False, defdt0=defdt0, mixed=mixed)
         finally:
             torch.set_default_dtype(NDT[defdt])
         set_rg(o, rg)
@@ -1207,6 +1259,10 @@ def execute(ctx, meta, cells, heavy_every=3):
             c = run_case(meta, e, src, defdt, rg, q, heavy=heavy, defdt0=opts.get("defdt0"), mixed=opts.get("mixed", False))
         except Unabstractable as ex:
             skipped.append("%s:%s" % (name, ex))
+            continue
+        except Exception as ex:
+            # the operator of this cell cannot be constructed on this source tree (not a statement about copies)
+            skipped.append("%s:construction raised %s" % (name, type(ex).__name__))
             continue
         c.cell = name
         cases.append(c)
